@@ -392,7 +392,12 @@ type orList struct {
 func userFilters(thorough bool) []orList {
 	ls := []orList{{l: []orv{{"user:a", ""}}}, {isNil: true}, {}, {l: []orv{{"group:1", "member"}}}, {l: []orv{{"group:1#member", ""}}},
 		{l: []orv{{"user:a", ""}, {"user:*", ""}}}, {l: []orv{{"user:*", ""}, {"user:a", ""}}}, {l: []orv{{"user:a", ""}, {"user:a", ""}}},
-		{l: []orv{{"user:b", ""}}}, {l: []orv{{"user:a" + encStr("user:*"), ""}}}, {l: []orv{{"", ""}}}}
+		{l: []orv{{"user:b", ""}}}, {l: []orv{{"user:a" + encStr("user:*"), ""}}}, {l: []orv{{"", ""}}},
+		// longer lists (the ListObjects pipeline sends one entry per upstream object): lists that share their
+		// smallest entries, a list and its extension, a permutation
+		{l: []orv{{"user:a", ""}, {"user:b", ""}}}, {l: []orv{{"user:a", ""}, {"user:b", ""}, {"user:c", ""}}}, {l: []orv{{"user:a", ""}, {"user:b", ""}, {"user:d", ""}}},
+		{l: []orv{{"user:c", ""}, {"user:a", ""}, {"user:b", ""}}}, {l: []orv{{"user:a", ""}, {"user:b", ""}, {"user:c", ""}, {"user:d", ""}}},
+		{l: []orv{{"group:1", "member"}, {"group:2", "member"}, {"group:3", "member"}}}, {l: []orv{{"group:1", "member"}, {"group:2", "member"}, {"group:4", "member"}}}}
 	if thorough {
 		ls = append(ls, orList{l: []orv{{"a", "b#c"}}}, orList{l: []orv{{"a#b", "c"}}}, orList{l: []orv{{"group:1", "member"}, {"user:a", ""}}}, orList{l: []orv{{"user:a", ""}, {"group:1", "member"}}},
 			orList{l: []orv{{"group:1", "other"}}}, orList{l: []orv{{"\x04", ""}}}, orList{l: []orv{{"", "member"}}}, orList{l: []orv{{"#member", ""}}})
